@@ -41,6 +41,16 @@ def check(case):
                     return "union of same-geometry filters returned None"
                 if bytes(u.bloom) != bytes(both.bloom):
                     return "bit array of the union differs from the filter fed both streams"
+                c, both2 = mk(), mk()
+                for k, _ in a_ops:
+                    both2.add(k)
+                for k, _ in b_ops[::-1][: len(b_ops) // 2 + 1]:
+                    c.add(k), both2.add(k)
+                u2 = a.union(c)
+                if u2 is None or bytes(u2.bloom) != bytes(both2.bloom):
+                    return "bit array of a second union of the same receiver differs from the filter fed both streams"
+                if bytes(u.bloom) != bytes(both.bloom):
+                    return "an earlier union result changed after a later union"
                 for k in keys:
                     if (a.check(k) or b.check(k)) and not u.check(k):
                         return f"union does not report {k!r} although an operand does"
@@ -62,6 +72,17 @@ def check(case):
             return "union of same-geometry counting filters returned None"
         if list(u.bloom) != list(both.bloom):
             return "counters of the union differ from the counting filter fed both streams"
+        # a second union of the same receiver with another operand
+        c, both2 = mk(), mk()
+        for k, n in a_ops:
+            both2.add(k, n)
+        for k, n in b_ops[::-1][: len(b_ops) // 2 + 1]:
+            c.add(k, n), both2.add(k, n)
+        u2 = a.union(c)
+        if u2 is None or list(u2.bloom) != list(both2.bloom):
+            return "counters of a second union of the same receiver differ from the counting filter fed both streams"
+        if list(u.bloom) != list(both.bloom):
+            return "an earlier union result changed after a later union"
     else:
         cls = P.CountMinSketch
         mk = lambda: cls(width=case["w"], depth=case["d"], hash_function=fn)
